@@ -306,6 +306,11 @@ type clientCase struct {
 	Query     string `json:"query"`
 	HasBody   bool   `json:"has_body"`
 	Body      string `json:"body"`
+	// size cases: the query / body are generated (genQuery / genBody) to this length instead of being spelled out
+	BigQueryLen int `json:"generated_query_len,omitempty"`
+	BigBodyLen  int `json:"generated_body_len,omitempty"`
+	// requests built after this one and before it is written to the wire
+	Alive []clientCase `json:"alive,omitempty"`
 	// results
 	Tunnelled bool     `json:"tunnelled"`
 	Boundary  string   `json:"boundary,omitempty"`
@@ -347,58 +352,130 @@ func bodyClass(c *clientCase) string {
 	switch {
 	case !c.HasBody:
 		return "absent"
-	case c.Body == "":
+	case c.Body == "" && c.BigBodyLen == 0:
 		return "empty"
 	}
 	return "present"
 }
 
-func runClient(m *module, c clientCase, rep *hx.Report, sh *hx.Shards) {
-	c.Module, c.Kind = m.name, "client"
-	build := func(th int) (*http.Request, []byte, error) {
-		req, err := m.request(th, c.Verb, c.Path, c.Query, c.HasBody, []byte(c.Body))
-		if err != nil {
-			return nil, nil, err
-		}
-		return toServer(req)
+// generated content for the size cases: only the lengths are kept in the case description
+func genQuery(n int) string {
+	if n < 2 {
+		return strings.Repeat("q", n)
 	}
-	sreq, body, err := build(c.Threshold)
-	ref, refBody, err2 := build(0)
+	return "q=" + strings.Repeat("0123456789abcdef", n/16+1)[:n-2]
+}
+func genBody(n int) string {
+	if n < 8 {
+		return strings.Repeat("1", n)
+	}
+	return `{"k":"` + strings.Repeat("0123456789abcdef", n/16+1)[:n-8] + `"}`
+}
+
+func (c *clientCase) query() string {
+	if c.BigQueryLen > 0 {
+		return genQuery(c.BigQueryLen)
+	}
+	return c.Query
+}
+func (c *clientCase) body() string {
+	if c.BigBodyLen > 0 {
+		return genBody(c.BigBodyLen)
+	}
+	return c.Body
+}
+func (c *clientCase) big() bool { return c.BigQueryLen > 0 || c.BigBodyLen > 0 }
+
+// a request that has been BUILT by the client (tunnelled and, for reference, with tunnelling off) but not yet written to
+// the wire: other requests may be built in between
+type built struct {
+	c         clientCase
+	req, ref  *http.Request
+	err, err2 error
+}
+
+func buildClient(m *module, c clientCase) *built {
+	c.Module, c.Kind = m.name, "client"
+	b := &built{c: c}
+	b.req, b.err = m.request(c.Threshold, c.Verb, c.Path, c.query(), c.HasBody, []byte(c.body()))
+	b.ref, b.err2 = m.request(0, c.Verb, c.Path, c.query(), c.HasBody, []byte(c.body()))
+	return b
+}
+
+func summary(d *decoded) string {
+	if !d.Ok {
+		return "decode error"
+	}
+	bl := -1
+	if d.Body != nil {
+		bl = len(*d.Body)
+	}
+	ct := "<none>"
+	if d.CT != nil {
+		ct = *d.CT
+	}
+	return fmt.Sprintf("method=%s len(raw_query)=%d len(request_uri)=%d content_type=%s len(body)=%d", d.Method, len(d.RawQuery), len(d.URI), ct, bl)
+}
+
+func runClient(m *module, c clientCase, rep *hx.Report, sh *hx.Shards) {
+	finishClient(m, buildClient(m, c), rep, sh)
+}
+
+// write to the wire, read back as a server, de-tunnel, compare with the untunnelled request
+func finishClient(m *module, b *built, rep *hx.Report, sh *hx.Shards) {
+	c := b.c
+	q := c.query()
+	var sreq, ref *http.Request
+	var body, refBody []byte
+	err, err2 := b.err, b.err2
+	if err == nil {
+		sreq, body, err = toServer(b.req)
+	}
+	if err2 == nil {
+		ref, refBody, err2 = toServer(b.ref)
+	}
 	rep.Evaluations++
+	prefix := ""
+	if len(c.Alive) > 0 {
+		prefix = "alive:"
+	}
 	if err != nil && err2 != nil {
 		rep.Count("skipped:query-not-sendable-either-way")
 		return
 	}
 	if err != nil || err2 != nil {
-		rep.Fail("client-error", "the client could not build / the server could not read the request", encSite, c, fmt.Sprint(err, err2))
+		rep.Fail(prefix+"client-error", "the client could not build / the server could not read the request", encSite, c, fmt.Sprint(err, err2))
 		return
 	}
 	w := wireOf(sreq, body)
-	c.Wire = &w
 	c.Tunnelled = w.Override != nil
 	if w.CT != nil {
 		if mt, params, err := mime.ParseMediaType(*w.CT); err == nil && mt == "multipart/mixed" {
 			c.Boundary = params["boundary"]
 		}
 	}
-	if c.HasBody {
+	if c.HasBody && !c.big() {
 		c.Body = string(refBody) // what the JSON writer really produced (an empty raw write comes out as "null")
 	}
 	refView := decodedOf(ref, nil)
 	rb := string(refBody)
 	refView.Body = &rb
-	c.Reference = &refView
 
 	derr, panicked := safeDecode(m, sreq)
 	if panicked {
-		rep.Fail("decode-panic", "DecodeTunnelledQuery panicked", encSite, c, nil)
+		rep.Fail(prefix+"decode-panic", "DecodeTunnelledQuery panicked", encSite, c, nil)
 		return
 	}
 	d := decodedOf(sreq, derr)
-	c.Decoded = &d
+	var implDesc interface{} = d
+	if c.big() {
+		implDesc = "after de-tunnelling: " + summary(&d) + "; untunnelled: " + summary(&refView)
+	} else {
+		c.Wire, c.Reference, c.Decoded = &w, &refView, &d
+	}
 
 	// ---- the property's own predicates
-	want := c.Threshold > 0 && len(c.Query) > c.Threshold
+	want := c.Threshold > 0 && len(q) > c.Threshold
 	if c.Tunnelled != want {
 		rep.Fail(fmt.Sprintf("threshold:tunnelled=%v,want=%v", c.Tunnelled, want), "a request is tunnelled iff threshold > 0 and len(query) > threshold", "restli/http.go:newRequest", c, nil)
 	}
@@ -407,12 +484,20 @@ func runClient(m *module, c clientCase, rep *hx.Report, sh *hx.Shards) {
 		wr := wireOf(ref, refBody)
 		if fmt.Sprint(w.Method, w.Path, w.RawQuery, w.Other, w.Body) != fmt.Sprint(wr.Method, wr.Path, wr.RawQuery, wr.Other, wr.Body) ||
 			(w.CT == nil) != (wr.CT == nil) || (w.CT != nil && *w.CT != *wr.CT) {
-			rep.Fail("untunnelled-differs", "a request whose query does not exceed the threshold was not sent untouched", encSite, c, nil)
+			rep.Fail(prefix+"untunnelled-differs", "a request whose query does not exceed the threshold was not sent untouched", encSite, c, nil)
 		}
 	}
 	if ok, field := sameDecoded(&d, &refView); !ok {
-		sig := "transparency:" + field + ":body-" + bodyClass(&c)
-		rep.Fail(sig, "after de-tunnelling the request differs from the untunnelled request in "+field, encSite, c, d)
+		sig := prefix + "transparency:" + field + ":body-" + bodyClass(&c)
+		what := "after de-tunnelling the request differs from the untunnelled request in " + field
+		if c.big() {
+			sig += ":large"
+			what += " (large query / body)"
+		}
+		if len(c.Alive) > 0 {
+			what += " (other requests were built between building and sending this one)"
+		}
+		rep.Fail(sig, what, encSite, c, implDesc)
 	}
 
 	// ---- distribution
@@ -423,11 +508,11 @@ func runClient(m *module, c clientCase, rep *hx.Report, sh *hx.Shards) {
 	switch {
 	case c.Threshold <= 0:
 		rep.Count("threshold<=0")
-	case c.Threshold == len(c.Query)-1:
+	case c.Threshold == len(q)-1:
 		rep.Count("threshold=len-1")
-	case c.Threshold == len(c.Query):
+	case c.Threshold == len(q):
 		rep.Count("threshold=len")
-	case c.Threshold == len(c.Query)+1:
+	case c.Threshold == len(q)+1:
 		rep.Count("threshold=len+1")
 	case c.Threshold == 1:
 		rep.Count("threshold=1")
@@ -439,9 +524,28 @@ func runClient(m *module, c clientCase, rep *hx.Report, sh *hx.Shards) {
 	} else if c.Tunnelled {
 		rep.Count("variant=form")
 	}
+	if len(c.Alive) > 0 {
+		rep.Count(fmt.Sprintf("alive-with=%d", len(c.Alive)))
+	}
+	if c.big() {
+		for _, n := range []int{c.BigQueryLen, c.BigBodyLen} {
+			switch {
+			case n == 0:
+			case n < 1<<20:
+				rep.Count("size<1MiB")
+			case n == 1<<20:
+				rep.Count("size=1MiB")
+			default:
+				rep.Count("size>1MiB")
+			}
+		}
+		key, _ := json.Marshal([]interface{}{m.name, "big", c.Threshold, c.Verb, c.Path, c.BigQueryLen, c.BigBodyLen, c.Query, c.HasBody, c.Body})
+		rep.Distinct(string(key), c.Tunnelled)
+		return // oracle only: a multi-megabyte case is not handed to the Coq evaluation
+	}
 	special := strings.ContainsAny(c.Query, "\r\n&=%+") || strings.Contains(c.Query, "--") || strings.Contains(c.Body, "--")
-	key, _ := json.Marshal([]interface{}{m.name, c.Threshold, c.Verb, c.Path, c.Query, c.HasBody, c.Body})
-	rep.Distinct(string(key), c.Tunnelled && special)
+	key, _ := json.Marshal([]interface{}{m.name, c.Threshold, c.Verb, c.Path, c.Query, c.HasBody, c.Body, len(c.Alive)})
+	rep.Distinct(string(key), c.Tunnelled && (special || len(c.Alive) > 0))
 	if c.Tunnelled && special && c.Boundary != "" {
 		rep.Sample(c)
 	}
@@ -453,6 +557,34 @@ func runClient(m *module, c clientCase, rep *hx.Report, sh *hx.Shards) {
 	}
 	sh.Add(fmt.Sprintf("{| c_client := Some (%s, (%d)%%Z, %s, %s, %s, %s); c_wire := %s; c_decoded := %s |}",
 		hx.CoqBool(m.root), c.Threshold, hx.CoqBytes(c.Verb), hx.CoqBytes(c.Query), bodyTerm, hx.CoqBytes(c.Boundary), coqWire(w), coqDecoded(d)), c)
+}
+
+// request A is built, then the requests in A.Alive are built, only then A is written to the wire and decoded
+func runAlive(m *module, c clientCase, rep *hx.Report, sh *hx.Shards) {
+	b := buildClient(m, c)
+	var others []*built
+	for _, o := range c.Alive {
+		others = append(others, buildClient(m, o))
+	}
+	finishClient(m, b, rep, sh)
+	_ = others // kept alive until here
+}
+
+// N requests built first, then sent in reverse order
+func runReverse(m *module, cs []clientCase, rep *hx.Report, sh *hx.Shards) {
+	bs := make([]*built, len(cs))
+	for i := range cs {
+		c := cs[i]
+		for k := i + 1; k < len(cs); k++ { // what is built after this one and before it is sent
+			o := cs[k]
+			o.Alive = nil
+			c.Alive = append(c.Alive, o)
+		}
+		bs[i] = buildClient(m, c)
+	}
+	for i := len(bs) - 1; i >= 0; i-- {
+		finishClient(m, bs[i], rep, sh)
+	}
 }
 
 // EncodeTunnelledQuery called directly (it is exported), for queries / bodies the URL layer would refuse (raw CR/LF, NUL,
@@ -765,7 +897,9 @@ func main() {
 		"boundary-like text, non-ASCII, long) x bodies (absent, empty, JSON, JSON / raw bytes with boundary-like lines) x thresholds {0, 1, len-1, len, len+1, 2^20, -1, 2}, through the real " +
 		"client entry points, the wire (Request.Write / http.ReadRequest) and the real DecodeTunnelledQuery, compared with the same request built with tunnelling off; plus hand-crafted wire " +
 		"requests (malformed tunnelling of every class the property names, well-formed variants, override header without tunnelled body) through DecodeTunnelledQuery and a real server " +
-		"with a recording stub resource; both module generations. non-trivial = tunnelled AND query/body hold a separator or boundary-like bytes (client cases), or a must-reject " +
+		"with a recording stub resource; plus SIZE cases (generated query / body of 64 KiB, 1 MiB - 1, 1 MiB, 1 MiB + 1, 2 MiB, 3 MiB; body-less and with body; ORACLE ONLY: they are compared with the untunnelled request " +
+		"on the real code but not handed to the Coq evaluation, whose cost is linear in the bytes with a large constant; the quick tier runs a handful of them) and 'several requests alive' streams (request A built, " +
+		"then B built, only then A written to the wire and decoded; N requests built first and sent in reverse order - these also go to the model); both module generations. non-trivial = tunnelled AND query/body hold a separator or boundary-like bytes (client cases), or a must-reject " +
 		"case (raw cases); distinct by all inputs")
 	header := "From Coq Require Import List ZArith. Import ListNotations.\nFrom Coq.Strings Require Import Byte.\nFrom GR Require Import Base.Bytes Http.UrlModel Http.Tunnel Corr.C14Corr.\n"
 	sh := hx.NewShards(cfg.Out, header, "C14Corr", 150)
@@ -803,6 +937,8 @@ func main() {
 				rp.Case.Wire, rp.Case.Decoded, rp.Case.Reference = nil, nil, nil
 				if probe.Case.Kind == "direct" {
 					runDirect(&modules[i], rp.Case, rep, sh)
+				} else if len(rp.Case.Alive) > 0 {
+					runAlive(&modules[i], rp.Case, rep, sh)
 				} else {
 					runClient(&modules[i], rp.Case, rep, sh)
 				}
@@ -843,6 +979,67 @@ func main() {
 						runClient(m, clientCase{Threshold: th, Verb: verb, Path: paths[n%len(paths)], Query: q, HasBody: b.has, Body: b.body}, rep, sh)
 					}
 				}
+			}
+		}
+	}
+	// ---- size cases (oracle only) and the "several requests alive" streams
+	for mi := range modules {
+		m := &modules[mi]
+		sizes := []int{64 << 10, 1<<20 - 1, 1 << 20, 1<<20 + 1, 2 << 20, 3 << 20}
+		quickQ := map[int]bool{64 << 10: true, 1<<20 - 1: true, 1<<20 + 1: true, 2 << 20: true}
+		quickB := map[int]bool{64 << 10: true, 1 << 20: true, 2 << 20: true}
+		for _, n := range sizes {
+			if cfg.Thorough() || quickQ[n] {
+				runClient(m, clientCase{Threshold: 128, Verb: "GET", Path: "/coll", BigQueryLen: n}, rep, sh)
+			}
+			if cfg.Thorough() || quickB[n] {
+				runClient(m, clientCase{Threshold: 16, Verb: "PUT", Path: "/coll", Query: "ids=List(1,2,3)&fields=a,b", HasBody: true, BigBodyLen: n}, rep, sh)
+			}
+			if cfg.Thorough() {
+				runClient(m, clientCase{Threshold: n - 1, Verb: "DELETE", Path: "/coll", BigQueryLen: n}, rep, sh)
+				runClient(m, clientCase{Threshold: n, Verb: "GET", Path: "/coll", BigQueryLen: n}, rep, sh)
+				runClient(m, clientCase{Threshold: 1, Verb: "POST", Path: "/coll/a%2Fb/sub/(k:1)", BigQueryLen: n, HasBody: true, Body: "{}"}, rep, sh)
+				runClient(m, clientCase{Threshold: 1, Verb: "PUT", Path: "/coll", BigQueryLen: n / 2, HasBody: true, BigBodyLen: n / 2}, rep, sh)
+				runClient(m, clientCase{Threshold: 0, Verb: "PUT", Path: "/coll", Query: "a=1", HasBody: true, BigBodyLen: n}, rep, sh)
+			}
+		}
+		mk := func(i int, hasBody bool) clientCase {
+			c := clientCase{Threshold: 4, Verb: "GET", Path: "/coll", Query: fmt.Sprintf("who=request-%c&n=%d", 'A'+i, i)}
+			if hasBody {
+				c.Verb, c.HasBody, c.Body = []string{"PUT", "POST"}[i%2], true, fmt.Sprintf(`{"owner":"request-%c","payload":"%s"}`, 'A'+i, strings.Repeat(string(rune('a'+i)), 20+7*i))
+			}
+			return c
+		}
+		// A built, B built, A sent (A and B with / without body, same and different lengths)
+		for _, ab := range [][2]bool{{true, true}, {true, false}, {false, true}, {false, false}} {
+			for _, ij := range [][2]int{{0, 1}, {1, 0}, {2, 5}, {5, 2}} {
+				a, b := mk(ij[0], ab[0]), mk(ij[1], ab[1])
+				a.Alive = []clientCase{b}
+				runAlive(m, a, rep, sh)
+			}
+		}
+		// a longer one first, a shorter one in between (and the other way round), untunnelled neighbours
+		a := mk(0, true)
+		a.Body = `{"owner":"request-A","payload":"` + strings.Repeat("A", 5000) + `"}`
+		a.Alive = []clientCase{mk(1, true), mk(2, true)}
+		runAlive(m, a, rep, sh)
+		a = mk(3, true)
+		nb := mk(4, true)
+		nb.Threshold = 0
+		a.Alive = []clientCase{nb}
+		runAlive(m, a, rep, sh)
+		// N requests built first, sent in reverse order
+		ns := []int{3, 8}
+		if cfg.Thorough() {
+			ns = []int{2, 3, 5, 8, 16}
+		}
+		for _, n := range ns {
+			for _, withBody := range []bool{true, false} {
+				var cs []clientCase
+				for i := 0; i < n; i++ {
+					cs = append(cs, mk(i%20, withBody || i%3 == 0))
+				}
+				runReverse(m, cs, rep, sh)
 			}
 		}
 	}
